@@ -76,6 +76,10 @@ C['C11'] = dict(level=MC, engine='E2', design='§2 C11',
    technique='symbolic execution (symx, z3 reals) of the unmodified solver on expansive/oscillating/erroring blocks with the step trace on; contraction => success with the default cap by exhaustive path exploration; invalid declarations enumerated',
    text='Expansive, oscillating, quadratic, coupled, persistently and transiently erroring blocks are solved for two periods with symbolic start values/exogenous inputs and iteration caps 0-3(6): every path either returns with all series of length horizon+1 or raises ConvergenceError/ValueError after at most cap+1 traced sweeps with every already-solved period intact and all solved series of equal length. One-variable contractions x=A*x+B (|A|<=0.8) with symbolic B and start value are explored exhaustively under the default cap 400: no path fails. Every reserved name (keywords, builtins, math names, k, self, None) as variable or token and every ill-formed declaration listed in the property is rejected before numbers are produced (enumerated outcome checks).',
    note='Contraction=>success is reached for ONE simultaneous variable only (the property says up to 12): stated as outside the claim. Sweep counts come from the public step trace. The invalid-declaration clause has no numeric input and is enumerated, not solver-decided.')
+C['C20'] = dict(level=MC, engine='E2+E1', design='§2 C20',
+   technique='the real code generator writes a module per block; the imported module`s RunOneStep is executed symbolically (symx, z3 reals) with per-path SMT post-conditions; z3 normal-form equivalence of the generated Iterator body with the parser equations',
+   text='For six block shapes (with/without user time variable, lags, initial conditions, constants, one or two exogenous lists, time used in an equation) IterativeMachineGenerator.main() writes a module that is imported and run for two periods with previous-period values and exogenous paths symbolic; every path either raises the module`s non-convergence error or z3 shows every block equation holds within gain*tolerance with lags from its own previous period and exogenous values from the supplied paths; the Iterator body equals the parser equations; the table header lists the time axis first and each non-lagged variable once.',
+   note='Modules are generated into a scratch directory and removed. Block grammar bounded (<= 2 simultaneous variables).')
 PENDING = {}
 ALL = ['C%02d' % i for i in range(1, 21)]
 checks = []
